@@ -46,15 +46,31 @@ def B(name, kids, default=False):
     return ("B", name, default, list(kids))
 
 
+def _node_fields(eng, variant):
+    """field name -> index of a Node variant, from the type's declaration (so that reordering the fields changes nothing)"""
+    key = ("node_fields", variant)
+    if key not in _C:
+        adt = eng.unit.adts.get(NODE)
+        v = [x for x in (adt or {}).get("variants", []) if x["name"] == variant]
+        names = [f["name"] for f in v[0]["fields"]] if v else []
+        want = ("name", "default", "handler" if variant == "Leaf" else "sub")
+        if sorted(names) != sorted(want):
+            raise facts.AnchorLost("fields %s of Node::%s (found %s)" % (list(want), variant, names))
+        _C[key] = {n: i for i, n in enumerate(names)}
+    return _C[key]
+
+
 def build_tree(eng, spec, handlers):
     """abstract value of a Node (the statics a user's `const TREE` evaluates to)"""
     kind, name, default, x = spec
     nm = RefV(Cell(BytesV(bytes(name)), "name:" + name.decode()))
     if kind == "L":
         h = RefV(Cell(AggV("msg::handler", {0: K(x)}), "handler:%s" % x))
-        return EnumV(NODE, "Leaf", eng.variant_discr(NODE, "Leaf"), {0: nm, 1: K(bool(default)), 2: h})
+        f = _node_fields(eng, "Leaf")
+        return EnumV(NODE, "Leaf", eng.variant_discr(NODE, "Leaf"), {f["name"]: nm, f["default"]: K(bool(default)), f["handler"]: h})
     cells = [Cell(build_tree(eng, k, handlers), "node:" + k[1].decode()) for k in x]
-    return EnumV(NODE, "Branch", eng.variant_discr(NODE, "Branch"), {0: nm, 1: K(bool(default)), 2: RefV(Cell(fdai.ListV(cells), "sub:" + name.decode()))})
+    f = _node_fields(eng, "Branch")
+    return EnumV(NODE, "Branch", eng.variant_discr(NODE, "Branch"), {f["name"]: nm, f["default"]: K(bool(default)), f["sub"]: RefV(Cell(fdai.ListV(cells), "sub:" + name.decode()))})
 
 
 # ---------------------------------------------------------------------------------------------------------------------
@@ -425,6 +441,11 @@ def engine():
     return eng
 
 
+def _context():
+    from . import devmodel as DM
+    return DM.context_value(False)
+
+
 def run_message(tree, handlers, msg, cap=None):
     """-> dict(result, calls, hook, out) or ("undecided", why)"""
     eng = engine()
@@ -437,7 +458,7 @@ def run_message(tree, handlers, msg, cap=None):
     root = Cell(build_tree(eng, tree, handlers), "root")
     buf = Cell(mk_buf(cap), "response")
     st.extra["buf"] = buf
-    args = [RefV(root), M._mkslice(msg, 0), RefV(Cell(AggV("msg::device", {}), "device"), (), True), RefV(Cell(AggV("msg::context", {0: K(False)}), "context"), (), True), RefV(buf, (), True)]
+    args = [RefV(root), M._mkslice(msg, 0), RefV(Cell(AggV("msg::device", {}), "device"), (), True), RefV(Cell(_context(), "context"), (), True), RefV(buf, (), True)]
     eng.step_budget, eng._steps_used, eng._forks_used = 16000, 0, 0
     try:
         rs = eng.run(body, args, st)
